@@ -157,3 +157,58 @@ class C03(E1Prop):
                 H("prop_C03_n3", "prop_C03.cpp", shards=8, defines=["VF_GROUP=1"]),
                 H("prop_C03_n4", "prop_C03.cpp", shards=8, defines=["VF_GROUP=2"]),
                 H("prop_C03_n5", "prop_C03.cpp", shards=8, defines=["VF_GROUP=3"])]
+
+
+@prop("C09")
+class C09(E1Prop):
+    pid = "C09"
+    rule = ("cases = (N in 1..4, scalar float/double, 1..4 affine transforms, vector x) on two domains: small integers -8..8 (every operation exact -> "
+            "exact equality) and arbitrary finite floats with bounded exponent spread (binary128 reference, |got-exact| <= c(N,k) u |A||x|); all 1-D "
+            "(A1,A2,x) with entries in -3..3 enumerated. Checked per case: affine<identity<R^N>> lookup = A.x+t; affine*vector; (A1*..*Ak)*x = "
+            "A1*(..*(Ak*x)) = model composition; entries of A1*A2 against an independent product; translation(t)*x = x+t; scaling(s)*x = s.x; identity "
+            "neutral on both sides. non-trivial = first matrix not diagonal (N>1), translation non-zero and, for exact products, first two factors "
+            "do not commute; distinct by all bit patterns")
+    min_eval = 20000
+    assumptions = ("float-domain scalars have exponents within 2^+-12 (float) / 2^+-30 (double) so that no product of five factors over- or underflows",)
+    level_text = ("Generated-input search: exact oracle on the integer domain (where a swapped product order or a misplaced translation column changes "
+                  "the result), forward-error-bounded binary128 oracle on arbitrary floats; complete enumeration of a small 1-D domain.")
+
+    def harnesses(self, tier):
+        return [H("prop_C09", "prop_C09.cpp", shards=8)]
+
+
+@prop("C10")
+class C10(E1Prop):
+    pid = "C10"
+    rule = ("cases = (box lo<=hi, 6 coordinates) for clamp<identity<X^N>> with X in {int, unsigned, long, size_t, float, double}, N in 1..4; "
+            "clamp<strided<I^N,array>> with the box inside the extents and I in {size_t, unsigned, int}; clamp<linear<strided>> with a real box inside "
+            "[0,extent-1); linear<clamp<strided>> and nearest_neighbour<clamp<strided>> with the integer box [0,extent-1]. Coordinates come from the "
+            "whole type: lowest/max, +-0, +-inf, subnormals, every bound and its neighbours (+-1, +-2 / ulps), random bit patterns (NaN excluded; "
+            "|x| <= 2^62 where an interpolator converts to an index, x >= 0 for linear). Oracles: component-wise clamp (numeric equality); model "
+            "array value at the clamped coordinate; the un-clamped library interpolator evaluated at the clamped coordinate; ASan for every access. "
+            "non-trivial = at least one component outside the box; distinct by (box, extents, coordinate bits)")
+    min_eval = 20000
+    level_text = ("Generated-input search over the full range of each coordinate type with bound-adjacent emphasis against a one-line clamp model, with "
+                  "array-backed variants under ASan so that an unclamped component becomes a memory error or a wrong cell.")
+
+    def harnesses(self, tier):
+        return [H("prop_C10_plain", "prop_C10.cpp", shards=8, defines=["VF_GROUP=0"]),
+                H("prop_C10_interp", "prop_C10.cpp", shards=6, defines=["VF_GROUP=1"])]
+
+
+@prop("C11")
+class C11(E1Prop):
+    pid = "C11"
+    rule = ("cases = (box, default value, 8 coordinates) for backup<probe<X^N,T^M>> (probe = user-defined counting backend) with N and M in 1..4 "
+            "independently and X rotating over int/unsigned/long/size_t/float/double, and for backup<strided<I^N,array<float2>>> with a box inside the "
+            "extents under ASan. Coordinates start on a bound and have a few components replaced by values equal/adjacent (+-1 or +-1 ulp) to a "
+            "bound, type extremes, +-inf, +-0 or random bits (NaN excluded). Oracle: outside the closed box -> result is bit-identical to the "
+            "configured default and the probe's query count is unchanged; inside -> count + 1, the probe saw exactly the coordinate, the result is "
+            "the probe's value. non-trivial = exactly one component outside by the minimal amount, or inside with a component exactly on a bound; "
+            "distinct by (box, default, coordinate bits)")
+    min_eval = 20000
+    level_text = ("Generated-input search with bound-adjacent generators against the one-line definition, with a counting backend making 'without "
+                  "querying the backend' observable; array-backed variant under ASan.")
+
+    def harnesses(self, tier):
+        return [H("prop_C11", "prop_C11.cpp", shards=8)]
